@@ -462,8 +462,8 @@ def replay_program(obj):
                   + list(rep['flags']) + ['-o', binp, src], timeout=900)
     if rc != 0:
         print('the program does not compile against %s:\n%s' % (REPO, out[-1500:])); return True
-    p = subprocess.run([binp], capture_output=True, text=True, timeout=300, env=dict(os.environ, ASAN_OPTIONS='detect_leaks=0'))
-    print('--- program %s (flags %s), exit %d' % (src, ' '.join(rep['flags']), p.returncode))
+    p = subprocess.run([binp] + list(rep.get('args', [])), capture_output=True, text=True, timeout=300, env=dict(os.environ, ASAN_OPTIONS='detect_leaks=0'))
+    print('--- program %s (flags %s) %s, exit %d' % (src, ' '.join(rep['flags']), ' '.join(rep.get('args', [])), p.returncode))
     print(p.stdout[-4000:]); print(p.stderr[-2000:])
     return True
 
